@@ -38,6 +38,16 @@ Theorem C16_finddomain_property : forall buf name,
 Proof. exact finddomain_property. Qed.
 Print Assumptions C16_finddomain_property.
 
+(** lib/match.c:matchdomain (entries of lists loaded by loadlistfd): an entry matches a
+    name iff it equals it case-insensitively or starts with a dot and is a
+    case-insensitive suffix of the name (here the name may equal the entry) *)
+Theorem C16_matchdomain : forall name expr,
+  nonul name -> nonul expr ->
+  (matchdomain name expr = true <->
+   if dot_led expr then ci_suffix expr name else lower name = lower expr).
+Proof. exact matchdomain_full. Qed.
+Print Assumptions C16_matchdomain.
+
 (** F-C16-1 on record: the code before the fix reads list[size] *)
 Theorem C16_finddomain_orig_overread :
   finddomain_orig [101; 120; 97; 109; 112; 108; 101; 46; 111; 114; 103; 10]%N [120; 46; 111; 114; 103]%N = Crash 4.
